@@ -242,6 +242,10 @@ def gen_plog_trace(rng, ttl, step, kind=None, mode=None, nrec=None, twice=None):
     for (vrid, va) in victims:
         if nrec:
             f.disk[va] = f.disk[va] + [(7000 + i, 1 + i % 3) for i in range(max(0, nrec - len(f.disk[va])))]
+            rng.shuffle(f.disk[va])                      # the member's record sits anywhere in the list (first, 32nd, 33rd, last)
+            if rng.random() < 0.4:
+                f.disk[va].sort(key=lambda x: x != (s, vrid))
+                f.disk[va] = f.disk[va][1:] + f.disk[va][:1] if rng.random() < 0.7 else f.disk[va]      # ... often last / first
         k_stop = rng.randint(2, 6)
         vmode = mode or rng.choice(["steady", "steady", "steady", "gap_long", "gap_long", "gap_short"])
         g = 0
